@@ -66,7 +66,9 @@ Definition lc_all_lt (s : state) (i : N) : Prop :=
 Definition flushed_state (s : state) : Prop :=
   forall j, (j <= unflushed s)%nat -> has_state (all_recs (drop_tail (segs s) j)) = true.
 (* the index of the incoming snapshot the raft loop is persisting (0: none) *)
-Definition pend_idx (s : state) : N := match pending s with Some r => r_snap r | None => 0 end.
+(* (also while the Save of its hard state is cutting the segment: the record is valid already, raftDone is not signalled) *)
+Definition pend_r (s : state) : option ready := match rdp s with RdSnapCut r _ _ => Some r | _ => pending s end.
+Definition pend_idx (s : state) : N := match pend_r s with Some r => r_snap r | None => 0 end.
 
 (* persistent part: holds in every state, also between a crash and the end of the restart *)
 Record PInv (s : state) (hi : N) : Prop := {
@@ -147,6 +149,11 @@ Definition rd_inv (s : state) (hi : N) : Prop :=
     /\ ckpt_ok s (r_snap r) /\ (fl = true -> In (r_snap r) (snapfiles s)) /\ app s = ApSnapPrepared (r_snap r)
   | RdSnapSaved r => 0 < r_snap r /\ snapfacts s hi r /\ lc_all_lt s (r_snap r) /\ published s = r_snap r /\ window s hi r
   | RdSnapApply r k => 0 < r_snap r /\ hi = r_snap r /\ published s = r_snap r /\ rs_last s < hi /\ r_snap r <= newest (segs s)
+  | RdSnapCut r k idx =>
+    (* the Save of the hard state cut the segment: the record is valid (in every crash image) and the log ends at it *)
+    0 < r_snap r /\ hi = r_snap r /\ published s = r_snap r /\ rs_last s < hi /\ newest (segs s) = r_snap r
+    /\ rd_done s < r_snap r /\ app s = ApSnapPrepared (r_snap r) /\ wstate s = true
+    /\ match k with O => idx = hi + 1 /\ unflushed s = 0%nat | _ => True end
   end.
 
 Definition sn_before_marker (p : sn_pc) : bool :=
@@ -156,6 +163,8 @@ Definition sn_before_marker (p : sn_pc) : bool :=
    its record is valid (and then it is the newest marker until the installation is over) *)
 Definition snap_pend (s : state) (hi i : N) : Prop := hi < i /\ pend_idx s = i /\ published s = i.
 Definition snap_done (s : state) (hi i : N) : Prop := i <= hi /\ newest (segs s) = i /\ i <= rd_done s /\ i <= published s.
+(* ... or its record became valid when the Save of its hard state cut the segment, and raftDone is not signalled yet *)
+Definition snap_mid (s : state) (hi i : N) : Prop := hi = i /\ pend_idx s = i /\ published s = i /\ newest (segs s) = i.
 
 (* the apply loop is past PrepareSnapshot of an incoming snapshot (whose record may be valid already: the newest marker
    is then above what is applied here) *)
@@ -182,7 +191,7 @@ Record VInv (c : config) (s : state) (hi : N) : Prop := {
           | ApApplying b => applied s <= rd_done s /\ (b_n b = 0 \/ b_last b <= published s /\ b_last b <= hi)
           | ApApplied b => (b_n b = 0 -> applied s <= rd_done s) /\ applied s <= N.max (rd_done s) (b_last b)
           | ApSnapPrepare i => applied s <= rd_done s /\ applied s < i /\ snap_pend s hi i
-          | ApSnapPrepared i => applied s <= rd_done s /\ applied s < i /\ (snap_pend s hi i \/ snap_done s hi i)
+          | ApSnapPrepared i => applied s <= rd_done s /\ applied s < i /\ (snap_pend s hi i \/ snap_done s hi i \/ snap_mid s hi i)
           | ApSnapRestoring i k =>
             applied s <= rd_done s /\ applied s < i /\ snap_done s hi i
             /\ match k with
@@ -222,29 +231,32 @@ Record VInv (c : config) (s : state) (hi : N) : Prop := {
 Lemma rd_inv_files : forall s s' hi,
   rd_inv s hi -> segs s' = segs s -> unflushed s' = unflushed s -> rdp s' = rdp s -> rs_last s' = rs_last s ->
   published s' = published s -> wstate s' = wstate s -> hcommit s' = hcommit s -> proposed s' = proposed s ->
+  rd_done s' = rd_done s ->
   (app s' = app s \/ (forall i, app s <> ApSnapPrepared i)) ->
   (forall i, 0 < i -> i = pend_idx s -> ckpt_ok s i -> ckpt_ok s' i) ->
   (forall i, 0 < i -> i = pend_idx s -> In i (snapfiles s) -> In i (snapfiles s')) ->
   rd_inv s' hi.
 Proof.
-  intros s s' hi H E1 E2 E3 E4 E5 E6 E7 E8 Ea Hc Hf.
+  intros s s' hi H E1 E2 E3 E4 E5 E6 E7 E8 E9 Ea Hc Hf.
   unfold rd_inv, window, snapfacts, snap_tail, lc_all_lt, flushed_state, pubcl, rlast in *.
-  unfold pend_idx, pending in Hc, Hf.
-  rewrite E1, E2, E3, E4, E5, E6, E7, E8.
+  unfold pend_idx, pend_r, pending in Hc, Hf.
+  rewrite E1, E2, E3, E4, E5, E6, E7, E8, E9.
   assert (Hap : forall i, app s = ApSnapPrepared i -> app s' = ApSnapPrepared i).
   { intros i Hi. destruct Ea as [Ea|Ea]; [congruence | exfalso; exact (Ea i Hi)]. }
-  destruct (rdp s) as [|r sv pb|r pb apd|r pb idx|r|r fl|r|r k]; auto.
+  destruct (rdp s) as [|r sv pb|r pb apd|r pb idx|r|r fl|r|r k|r k cidx]; auto.
   - destruct (0 <? r_snap r) eqn:Q; [|exact H]. apply N.ltb_lt in Q. destruct sv; intuition.
   - destruct (0 <? r_snap r) eqn:Q; [|exact H]. apply N.ltb_lt in Q. destruct apd; intuition.
   - assert (Q : (0 <? r_snap r) = true) by (apply N.ltb_lt; tauto). rewrite Q in *. intuition.
   - assert (Q : (0 <? r_snap r) = true) by (apply N.ltb_lt; tauto). rewrite Q in *. intuition.
+  - intuition.
 Qed.
 
 (* a pending incoming snapshot is ahead of the log *)
-Lemma pend_above : forall s hi, rd_inv s hi -> 0 < pend_idx s -> hi < pend_idx s.
+Lemma pend_above : forall s hi, rd_inv s hi -> 0 < pend_idx s ->
+  hi < pend_idx s \/ (hi = pend_idx s /\ newest (segs s) = pend_idx s).
 Proof.
-  intros s hi H Hp. unfold rd_inv, snapfacts, pend_idx, pending in *.
-  destruct (rdp s) as [|r sv pb|r pb apd|r pb idx|r|r fl|r|r k]; try lia;
+  intros s hi H Hp. unfold rd_inv, snapfacts, pend_idx, pend_r, pending in *.
+  destruct (rdp s) as [|r sv pb|r pb apd|r pb idx|r|r fl|r|r k|r k cidx]; try lia;
     try (destruct (0 <? r_snap r) eqn:Q; [|lia]); try (destruct sv); try (destruct apd); intuition.
 Qed.
 
@@ -257,7 +269,7 @@ Definition app_inv (s : state) (hi : N) : Prop :=
   | ApApplying b => applied s <= rd_done s /\ (b_n b = 0 \/ b_last b <= published s /\ b_last b <= hi)
   | ApApplied b => (b_n b = 0 -> applied s <= rd_done s) /\ applied s <= N.max (rd_done s) (b_last b)
   | ApSnapPrepare i => applied s <= rd_done s /\ applied s < i /\ snap_pend s hi i
-  | ApSnapPrepared i => applied s <= rd_done s /\ applied s < i /\ (snap_pend s hi i \/ snap_done s hi i)
+  | ApSnapPrepared i => applied s <= rd_done s /\ applied s < i /\ (snap_pend s hi i \/ snap_done s hi i \/ snap_mid s hi i)
   | ApSnapRestoring i k =>
     applied s <= rd_done s /\ applied s < i /\ snap_done s hi i
     /\ match k with
@@ -281,7 +293,7 @@ Lemma app_inv_grow : forall s s' hi hi',
   pend_idx s = 0 -> pend_idx s' = 0 -> hi <= hi' -> app_inv s hi -> app_inv s' hi'.
 Proof.
   intros s s' hi hi' E1 E2 E3 E4 E5 E6 E7 E8 E9 P0 P1 L H.
-  unfold app_inv, snap_pend, snap_done in *. rewrite E1, E2, E3, E4, E5, E6, E7, E8, E9, P1. rewrite P0 in H.
+  unfold app_inv, snap_pend, snap_done, snap_mid in *. rewrite E1, E2, E3, E4, E5, E6, E7, E8, E9, P1. rewrite P0 in H.
   destruct (app s); intuition (try lia; auto).
 Qed.
 
@@ -301,7 +313,7 @@ Lemma app_inv_pub : forall s s' hi,
   app_inv s hi -> app_inv s' hi.
 Proof.
   intros s s' hi E1 E2 E3 E5 E6 E7 E8 E9 P1 L D H.
-  unfold app_inv, snap_pend, snap_done in *. rewrite E1, E2, E3, E5, E6, E7, E8, E9, P1.
+  unfold app_inv, snap_pend, snap_done, snap_mid in *. rewrite E1, E2, E3, E5, E6, E7, E8, E9, P1.
   destruct (app s); intuition (try lia; auto).
 Qed.
 
@@ -317,12 +329,12 @@ Qed.
 Lemma app_inv_done : forall s s' hi,
   app s' = app s -> applied s' = applied s -> published s' = published s -> snapi s' = snapi s ->
   cache s' = cache s -> newest (segs s') = newest (segs s) -> restoring s' = restoring s -> engine s' = engine s ->
-  (pend_idx s' = pend_idx s \/ hi >= pend_idx s) -> rd_done s <= rd_done s' ->
+  pend_idx s = 0 -> pend_idx s' = 0 -> rd_done s <= rd_done s' ->
   app_inv s hi -> app_inv s' hi.
 Proof.
-  intros s s' hi E1 E2 E4 E5 E6 E7 E8 E9 P1 L H.
-  unfold app_inv, snap_pend, snap_done in *. rewrite E1, E2, E4, E5, E6, E7, E8, E9.
-  destruct (app s); destruct P1 as [P1|P1]; rewrite ?P1; intuition (try lia; auto).
+  intros s s' hi E1 E2 E4 E5 E6 E7 E8 E9 P0 P1 L H.
+  unfold app_inv, snap_pend, snap_done, snap_mid in *. rewrite E1, E2, E4, E5, E6, E7, E8, E9, P1. rewrite P0 in H.
+  destruct (app s); intuition (try lia; auto).
 Qed.
 
 (* the marker of a local snapshot (at or below what is applied) does not overtake an incoming snapshot's *)
@@ -333,7 +345,7 @@ Lemma app_inv_marker : forall s s' hi i,
   app_inv s hi -> app_inv s' hi.
 Proof.
   intros s s' hi i E1 E2 E3 E4 E5 E6 E8 E9 P1 En Li H.
-  unfold app_inv, snap_pend, snap_done in *. rewrite E1, E2, E3, E4, E5, E6, E8, E9, P1, En.
+  unfold app_inv, snap_pend, snap_done, snap_mid in *. rewrite E1, E2, E3, E4, E5, E6, E8, E9, P1, En.
   destruct (app s); intuition (try lia; auto).
 Qed.
 
@@ -350,7 +362,7 @@ Ltac pend_goal0 Qs :=
   repeat match goal with
          | |- context [pend_idx ?t] =>
            tryif is_var t then fail
-           else replace (pend_idx t) with 0 by (unfold pend_idx, pending; proj; rewrite ?Qs; reflexivity)
+           else replace (pend_idx t) with 0 by (unfold pend_idx, pend_r, pending; proj; rewrite ?Qs; reflexivity)
          end.
 
 (* between a crash and the end of the restart *)
@@ -410,7 +422,7 @@ Ltac pend_keep_goal :=
            | context [set_rdp] => fail
            | _ => tryif is_var t then fail
                   else match goal with
-                       | s0 : state |- _ => replace (pend_idx t) with (pend_idx s0) by (unfold pend_idx, pending; proj; reflexivity)
+                       | s0 : state |- _ => replace (pend_idx t) with (pend_idx s0) by (unfold pend_idx, pend_r, pending; proj; reflexivity)
                        end
            end
          end.
@@ -464,7 +476,7 @@ Ltac latest_local E :=
 Ltac rd_side :=
   try (solve [match goal with
               | V : rd_inv ?s0 _ |- rd_inv _ _ =>
-                apply (rd_inv_files s0); [exact V | reflexivity | reflexivity | reflexivity | reflexivity | reflexivity | reflexivity | reflexivity | reflexivity
+                apply (rd_inv_files s0); [exact V | reflexivity | reflexivity | reflexivity | reflexivity | reflexivity | reflexivity | reflexivity | reflexivity | reflexivity
                                          | first [left; reflexivity | right; intros; congruence]
                                          | intros ? ? ? X; exact X | intros ? ? ? X; exact X]
               end]).
@@ -481,7 +493,7 @@ Ltac win_keep_goal :=
            end
          end.
 
-Ltac vinv_split HV := destruct HV; constructor; unfold snap_pend, snap_done, snap_busy in *; proj; try pend_keep_goal; try win_keep_goal; try assumption; try exact I; app_side; rd_side; try (solve [match goal with K0 : match ckp _ with _ => _ end |- _ => ck_app K0 end]);
+Ltac vinv_split HV := destruct HV; constructor; unfold snap_pend, snap_done, snap_mid, snap_busy in *; proj; try pend_keep_goal; try win_keep_goal; try assumption; try exact I; app_side; rd_side; try (solve [match goal with K0 : match ckp _ with _ => _ end |- _ => ck_app K0 end]);
   try (solve [match goal with E0 : ckp _ = _ |- match ckp _ with _ => _ end => rewrite E0; exact I end]).
 Ltac pframe s0 := apply (pinv_frame s0); [reflexivity|reflexivity|reflexivity|reflexivity|reflexivity|reflexivity|assumption].
 
@@ -524,10 +536,10 @@ Lemma vinv_set_rdp : forall c s hi x,
   VInv c (set_rdp s x) hi.
 Proof.
   intros c s hi x HV Hrd Hp Hw. destruct HV.
-  constructor; unfold snap_pend, snap_done, snap_busy in *; proj; rewrite ?Hp, ?Hw; auto.
+  constructor; unfold snap_pend, snap_done, snap_mid, snap_busy in *; proj; rewrite ?Hp, ?Hw; auto.
 Qed.
 
-Ltac pend_eq E := unfold pend_idx, pending, in_window; proj; rewrite ?E;
+Ltac pend_eq E := unfold pend_idx, pend_r, pending, in_window; proj; rewrite ?E;
   repeat match goal with G : (0 <? r_snap _) = _ |- _ => rewrite G end; try reflexivity.
 
 Lemma step_rd_advance : forall c s s', Inv c s -> step c s EvRdAdvance = Ok s' -> Inv c s'.
@@ -824,9 +836,10 @@ Qed.
 Lemma rd_inv_purge_wal : forall s s' hi x y t,
   PInv s hi -> rd_inv s hi -> segs s = x :: y :: t -> segs s' = y :: t -> unflushed s' = unflushed s ->
   rdp s' = rdp s -> rs_last s' = rs_last s -> published s' = published s -> wstate s' = wstate s -> hcommit s' = hcommit s ->
-  proposed s' = proposed s -> ckpts s' = ckpts s -> snapfiles s' = snapfiles s -> newest (segs s') = newest (segs s) -> app s' = app s -> rd_inv s' hi.
+  proposed s' = proposed s -> ckpts s' = ckpts s -> snapfiles s' = snapfiles s -> newest (segs s') = newest (segs s) -> app s' = app s ->
+  rd_done s' = rd_done s -> rd_inv s' hi.
 Proof.
-  intros s s' hi x y t P H Ess Es Eu E3 E4 E5 E6 E7 E8 E10 E11 En Eap.
+  intros s s' hi x y t P H Ess Es Eu E3 E4 E5 E6 E7 E8 E10 E11 En Eap Erd.
   pose proof (purge_views s hi x y t P Ess) as PV.
   assert (H1 : last_commit (all_recs (segs s')) = last_commit (all_recs (segs s))).
   { rewrite Es, Ess. destruct (PV 0%nat ltac:(lia)) as [_ X]. rewrite !drop_tail_0 in X. exact X. }
@@ -843,12 +856,13 @@ Proof.
   { intros i0 L j Hj. rewrite Eu in Hj. rewrite Es. destruct (PV j ltac:(lia)) as [_ X]. rewrite X, <- Ess. apply L. exact Hj. }
   unfold rd_inv, window, snapfacts, ckpt_ok, pubcl, rlast in *.
   rewrite E3, E4, E5, E6, E7, E8, E10, E11, H1, En, Eap.
-  destruct (rdp s) as [|r sv pb|r pb apd|r pb idx|r|r fl|r|r k]; auto.
+  destruct (rdp s) as [|r sv pb|r pb apd|r pb idx|r|r fl|r|r k|r k cidx]; auto.
   - destruct (0 <? r_snap r); destruct sv; intuition.
   - destruct (0 <? r_snap r); destruct apd; intuition.
   - destruct (0 <? r_snap r); [exact H|]. rewrite Eu. exact H.
   - intuition.
   - intuition.
+  - rewrite Erd, ?Eu. exact H.
 Qed.
 
 (* changes of the snap directory and of the checkpoint directory only *)
